@@ -397,7 +397,7 @@ def explore(run_seed: int, cfg: dict) -> dict:
         # stratified sample: every class, then uniformly
         byc = {}
         for f in space:
-            byc.setdefault(f["cls"] + ":" + str(f.get("kind", "")), []).append(f)
+            byc.setdefault(f["cls"] + ":" + str(f.get("kind", f.get("val", f.get("dir", "")))), []).append(f)
         chosen = []
         for k in sorted(byc):
             chosen += r.sample(byc[k], min(len(byc[k]), cfg.get("per_class", 3)))
